@@ -115,6 +115,10 @@ def run(ctx, config='rel-all'):
     fsz = arena.ArenaInterp(db).size_of('ChunkFooter')
     if is_c(fsz):
         c08.check_j4(ctx, A, db, fsz, 'R7')
+    # ---- R8 'a request that fits in the space left succeeds whatever the limit': the fast path refuses only a request
+    # that is strictly larger than the space left (shared with C18.O6); together with R5 (the fast path never reads the limit)
+    from . import c18
+    c18.check_exact_refusal(ctx, A, config, 'R8')
     # ---- R5 who reads the limit
     val = A.get('try_alloc_layout')
     readers = set()
